@@ -129,6 +129,10 @@ func (t *Term) Key() string {
 		}
 	case "old":
 		b.WriteString("old(" + t.Args[0].Key() + ")")
+	case "mapset":
+		b.WriteString("mapset(" + t.Args[0].Key() + ", " + t.Args[1].Key() + "=>" + t.Args[2].Key() + ")")
+	case "mapdel":
+		b.WriteString("mapdel(" + t.Args[0].Key() + ", " + t.Args[1].Key() + ")")
 	default:
 		b.WriteString(t.Op + ":" + t.Name + "(")
 		for i, a := range t.Args {
@@ -277,6 +281,8 @@ func emptiness(t *Term) int {
 		if len(t.Args) == 0 {
 			return 1
 		}
+		return -1
+	case "mapset":
 		return -1
 	case "call":
 		if t.Name == "append" && len(t.Args) >= 2 {
@@ -490,7 +496,21 @@ func normAtom(t *Term, nilness func(*Term) int) Atom {
 			}
 			return Atom{Key: "TZero(" + t.Args[0].Key() + ")", Pol: pol}
 		case "errors.Is":
-			return Atom{Key: "ErrIs(" + t.Args[0].Key() + ", " + t.Args[1].Key() + ")", Pol: pol}
+			x, y := t.Args[0], t.Args[1]
+			if x.isConst() && x.Name == "nil" {
+				return mkc(y.isConst() && y.Name == "nil")
+			}
+			if dx, ok := dynType(x); ok {
+				if dy, ok2 := dynType(y); ok2 && typeHasNoUnwrapIs != nil && typeHasNoUnwrapIs(dx) {
+					if dx != dy {
+						return mkc(false)
+					}
+					if x.Key() == y.Key() {
+						return mkc(true)
+					}
+				}
+			}
+			return Atom{Key: "ErrIs(" + x.Key() + ", " + y.Key() + ")", Pol: pol}
 		}
 		if p, ok := symCallPreds[t.Name]; ok && p != "" && len(t.Args) == 2 {
 			x, y := sorted2(t.Args[0].Key(), t.Args[1].Key())
@@ -501,15 +521,96 @@ func normAtom(t *Term, nilness func(*Term) int) Atom {
 		in := t.Args[0]
 		switch in.Op {
 		case "index":
+			if m := in.Args[0]; m.Op == "call" && m.Name == "make" && len(m.Args) > 0 && strings.HasPrefix(m.Args[0].Name, "map[") {
+				return mkc(false) // lookup in a freshly made, never written map
+			}
+			if m := in.Args[0]; m.Op == "maplit" && in.Args[1].isConst() {
+				all := true
+				found := false
+				for i := 0; i+1 < len(m.Args); i += 2 {
+					if !m.Args[i].isConst() {
+						all = false
+					} else if m.Args[i].Name == in.Args[1].Name {
+						found = true
+					}
+				}
+				if found {
+					return mkc(true)
+				}
+				if all {
+					return mkc(false)
+				}
+			}
 			return Atom{Key: "Has(" + in.Args[0].Key() + ", " + in.Args[1].Key() + ")", Pol: pol}
 		case "assert":
+			if dt, ok := dynType(in.Args[0]); ok && len(in.Fields) == 0 {
+				return mkc(dt == in.Name)
+			}
 			return Atom{Key: "TypeIs(" + in.Args[0].Key() + ", " + in.Name + ")", Pol: pol}
 		}
 	}
 	if t.Op == "typeis" {
+		if dt, ok := dynType(t.Args[0]); ok && len(t.Fields) == 0 {
+			return mkc(dt == t.Name)
+		}
 		return Atom{Key: "TypeIs(" + t.Args[0].Key() + ", " + t.Name + ")", Pol: pol}
 	}
 	return Atom{Key: "Truth(" + t.Key() + ")", Pol: pol}
+}
+
+// typeHasNoUnwrapIs reports (for a type string as printed in terms) that the
+// type is known and has neither an Unwrap nor an Is method. Set by the loader.
+var typeHasNoUnwrapIs func(string) bool
+
+// dynType returns the dynamic type of a value term when it is evident from the
+// term (composite literals, pointers to them).
+func dynType(t *Term) (string, bool) {
+	if t == nil {
+		return "", false
+	}
+	switch t.Op {
+	case "struct":
+		return t.Name, true
+	case "addr":
+		if t.Args[0].Op == "struct" {
+			return "*" + t.Args[0].Name, true
+		}
+	case "const":
+		if t.Name == "nil" {
+			return "nil", true
+		}
+	case "call", "res":
+		c := t
+		if t.Op == "res" {
+			c = t.Args[0]
+		}
+		if c.Op == "call" {
+			switch c.Name {
+			case "fmt.Errorf":
+				return "*fmt.wrapError|*fmt.fmtError", true
+			case "errors.New":
+				return "*errors.errorString", true
+			}
+			if extOwnErrors(c.Name) {
+				// an error made by a dependency: never a type declared in this module
+				return "ext:" + c.Name, true
+			}
+		}
+	}
+	return "", false
+}
+
+// extOwnErrors lists external callees whose results are values of their own
+// packages' types (they do not pass through errors of caller-supplied
+// components). A type declared in this module can only be constructed by code
+// that imports it, which these packages do not.
+func extOwnErrors(name string) bool {
+	for _, p := range []string{"net/http.NewRequest", "net/url.Parse", "net/url.JoinPath", "golang.org/x/crypto/ocsp.", "crypto/x509.Parse", "encoding/asn1.", "encoding/base64.", "(*encoding/base64.Encoding).", "encoding/json.Unmarshal", "encoding/json.Marshal"} {
+		if strings.HasPrefix(name, p) {
+			return true
+		}
+	}
+	return false
 }
 
 func (a Atom) String() string {
